@@ -113,6 +113,11 @@ def build(lib):
         """np.tile(a, r) for a rank-1 a and an integer r: r copies one after the other"""
         arr = a[0] if isinstance(a[0], SArr) else as_array(it, a[0])
         r = a[1]
+        if arr.rank == 1 and isinstance(r, (tuple, list)) and len(r) == 2 and r[1] == 1:
+            # np.tile(a, (r, 1)): r rows, each a copy of a; the dtype is that of a
+            it.ctx.note_trusted("np.tile(a, (r, 1)): r rows, each equal to a (dtype of a)")
+            g = arr.get
+            return SArr((r[0], arr.shape[0]), lambda o: g((o[1],)), arr.dtype)
         if arr.rank != 1 or isinstance(r, (tuple, list)):
             raise Unsupported("np.tile form")
         it.ctx.note_trusted("np.tile(a, r): out[u] = a[u % len(a)]")
